@@ -31,7 +31,7 @@ import (
 
 func init() {
 	register("c20", checkC20)
-	children["c20"] = func(args []string) { cliChildLoop(c20Child) }
+	children["c20"] = func(args []string) { cliChildLoop(true, c20Child) }
 }
 
 // c20Mut describes how one reply is malformed.
